@@ -362,7 +362,7 @@ def parse_dot(path, keep_vars=None):
 # simulate files  (one file per behaviour: '\* <Action line ...>' + 'STATE_n == ...')
 # ----------------------------------------------------------------------------------------------
 _RE_SIMSTATE = re.compile(r"^STATE_(\d+) == *\n?(.*?)(?=^\\\*|^STATE_|\Z)", re.M | re.S)
-_RE_SIMACT = re.compile(r"^\\\* <(\w+)(\([^>]*?\))? line", re.M)
+_RE_SIMACT = re.compile(r"^\\\* <(\w+)(\(.*\))? line \d+, col \d+ to line", re.M)   # args may contain '>' (records, sequences)
 
 
 def parse_simulate_file(path):
